@@ -371,7 +371,7 @@ pub fn run_c19(tier: Tier) -> i32 {
     let mut v1: BTreeSet<Rep> = v0.iter().cloned().collect();
     v1.extend(a0.results.iter().cloned());
     let mut v1: Vec<Rep> = v1.into_iter().collect();
-    let cap = tier.pick(700, 2500);
+    let cap = tier.pick(1200, 4000);
     let mut capped = false;
     if v1.len() > cap {
         // keep the base values and an evenly spaced selection of the rest (deterministic)
@@ -384,17 +384,42 @@ pub fn run_c19(tier: Tier) -> i32 {
         v1 = sel;
         capped = true;
     }
-    let a1 = sweep(&v1, false, workers);
+    let a1 = sweep(&v1, tier == Tier::Thorough, workers);
     let mut viols = a0.viols;
     for (k, (n, d)) in a1.viols {
         let e = viols.entry(k).or_insert((0, d));
         e.0 += n;
     }
+    let mut extra_evals = 0u64;
+    let mut extra_zero = 0u64;
+    let mut extra_over = 0u64;
+    if tier == Tier::Thorough {
+        // second closure round: results of the first closure become operands (capped selection)
+        let known: BTreeSet<Rep> = v1.iter().cloned().collect();
+        let fresh: Vec<Rep> = a1.results.iter().filter(|r| !known.contains(r)).cloned().collect();
+        let keep = cap;
+        let stride = (fresh.len() + keep - 1) / keep.max(1);
+        let mut v2: Vec<Rep> = v0.clone();
+        v2.extend(fresh.iter().step_by(stride.max(1)).cloned());
+        if fresh.len() > keep {
+            capped = true;
+        }
+        let a2 = sweep(&v2, false, workers);
+        for (k, (n, d)) in a2.viols {
+            let e = viols.entry(k).or_insert((0, d));
+            e.0 += n;
+        }
+        extra_evals = a2.evals;
+        extra_zero = a2.zero_results;
+        extra_over = a2.overflow_cases;
+        run.tag("c19:second-closure-values-evaluated", v2.len() as u64);
+        v1.extend(v2.into_iter().filter(|r| !known.contains(r)));
+    }
     run.states = v1.len() as u64;
-    run.transitions = a0.evals + a1.evals;
+    run.transitions = a0.evals + a1.evals + extra_evals;
     run.executions = run.transitions;
-    run.tag("c19:zero-results", a0.zero_results + a1.zero_results);
-    run.tag("c19:overflow-or-div0-cases", a0.overflow_cases + a1.overflow_cases);
+    run.tag("c19:zero-results", a0.zero_results + a1.zero_results + extra_zero);
+    run.tag("c19:overflow-or-div0-cases", a0.overflow_cases + a1.overflow_cases + extra_over);
     run.tag("c19:base-values", v0.len() as u64);
     run.tag("c19:closure-values-evaluated", v1.len() as u64);
     if capped {
